@@ -260,12 +260,14 @@ KEYS = ["TITLE", "title", "Artist", "ATTACKS", "attacks", "DISPLAYBPM", "NOTES",
 
 
 def gen_param(rng):
-    key = rng.choice(KEYS)
+    key = rng.choice(KEYS) if rng.random() < 0.75 else rng.choice(KEYS[:30])       # (the plain vocabulary keeps its weight)
     r = rng.random()
     if r < 0.08:
         comps = []
     elif key.upper() == "NOTES" and r < 0.7:
         comps = [rng.choice(["", " a ", "dance-single", "\n  x\n", "1", "a\\:b"]) for _ in range(rng.choice([1, 5, 6, 6, 6, 7, 8]))]
+        if len(comps) > 6 and rng.random() < 0.4:
+            comps[6:] = [""] * (len(comps) - 6)          # components beyond the sixth that are all EMPTY are still components
     else:
         comps = [cc.rand_text(rng, 8, 0.0).replace("\\", "") for _ in range(rng.choice([1, 1, 1, 2, 3]))]
     body = key
